@@ -591,3 +591,133 @@ def mwhc_tiny():
     for logic, n in (("mwhcnoshards", 2), ("mwhc", 2), ("mwhcnoshards", 4)):
         out.append(episode([build(n, (logic, 2, "func", "bfv", "usize")), {"op": "len"}], src="known", budget_ms=8000))
     return out
+
+
+# ------------------------------------------------------------------ additions after the seeded-change round
+# builder seeds whose FIRST attempt fails with MaxShardTooBig for the keys 0..n (usize, range key function):
+# found by search with the executor (work/seedsearch), they make the rarely taken retry path deterministic
+MAX_SHARD_RETRY = {200000: [66, 75, 87], 400000: [5, 13, 22]}
+RANGE0 = {"t": "range", "start": 0}
+
+
+def retry_recipes(seed, kind, sizes=(200000,), per_size=2):
+    """builds whose first attempt is rejected because the largest shard is more than 1% above the average: the
+    build loop must rewind both lenders and build the whole function / filter on a later attempt"""
+    r = random.Random(seed)
+    out = []
+    for n in sizes:
+        for s in MAX_SHARD_RETRY[n][:per_size]:
+            if kind == "func":
+                combo = ("shards", 2, "func", "bfv", "usize")
+                v, wide = value_recipe(r, n, 64, "bfv")
+                b = build(n, combo, v=v, seed=s, hint=r.choice([None, n]), offline=r.random() < 0.3)
+                out.append(episode([b] + func_queries(r, n, wide), kt="usize", kf=RANGE0, src="retry", budget_ms=120000))
+            else:
+                combo = ("shards", 2, "filter", "box", "u8")
+                b = build(n, combo, seed=s, hint=r.choice([None, n]))
+                out.append(episode([b] + filter_queries(r, n, 8, max_probe_bits=8), kt="usize", kf=RANGE0, src="retry",
+                                   budget_ms=120000))
+    return out
+
+
+def sharded_logics(seed, kind, sizes=(100000, 120000), budget_ms=120000):
+    """every sharding logic on key sets that are actually sharded (two shards at 100000..199999 keys), online and
+    on disk with fewer buckets than shards (too-small hint / few buckets: the split branch of the on-disk store),
+    one thread (more shards than workers) and several"""
+    r = random.Random(seed)
+    out = []
+    logics = [("shards", 2), ("fullsigs", 2), ("mwhc", 2)]
+    for k, n in enumerate(sizes):
+        for j, (lg, sg) in enumerate(logics):
+            for offline, hint, lb, threads in [(False, None, None, 1), (True, 1000, None, None), (True, None, 0, 4)]:
+                if lg == "mwhc" and offline:
+                    continue
+                kt = r.choice(["usize", "u64", "str"])
+                eps = "0.1" if lg == "mwhc" else None
+                if kind == "func":
+                    combo = (lg, sg, "func", "bfv", "usize")
+                    v, wide = value_recipe(r, n, 64, "bfv")
+                    b = build(n, combo, v=v, hint=hint, offline=offline, log2_buckets=lb, threads=threads, eps=eps)
+                    out.append(episode([b] + func_queries(r, n, wide), kt=kt, kf=keyfn(r, kt), src="sharded", budget_ms=budget_ms))
+                else:
+                    combo = (lg, sg, "filter", "box", "u8")
+                    b = build(n, combo, hint=hint, offline=offline, log2_buckets=lb, threads=threads, eps=eps)
+                    out.append(episode([b] + filter_queries(r, n, 8, max_probe_bits=8), kt=kt, kf=keyfn(r, kt), src="sharded",
+                                       budget_ms=budget_ms))
+    return out
+
+
+def c17_sharded_dups(seed, sizes=(100000,), big=(800000,)):
+    """one duplicate in a sharded key set with fewer workers than shards (the other shards are still waiting to be
+    handed over when the failure is reported), functions and filters, online and on disk"""
+    r = random.Random(seed)
+    out = []
+    for n in sizes:
+        for combo, offline, threads in [(("shards", 2, "func", "bfv", "usize"), False, 1),
+                                        (("shards", 2, "filter", "box", "u8"), True, 1),
+                                        (("fullsigs", 2, "func", "bfv", "usize"), False, 2)]:
+            at, of = n - 1 - r.randrange(100), r.randrange(n // 2)
+            b = build(n, combo, subst=[[at, of]], check_dups=True, offline=offline, threads=threads,
+                      log2_buckets=4 if offline else None)
+            out.append(episode([b, {"op": "len"}], kt="usize", kf=keyfn(r, "usize"), src="dups", budget_ms=120000))
+    for n in big:
+        at, of = r.randrange(n), r.randrange(n)
+        if at != of:
+            b = build(n, ("shards", 2, "func", "bfv", "usize"), subst=[[at, of]], check_dups=True)
+            out.append(episode([b, {"op": "len"}], kt="usize", kf=keyfn(r, "usize"), src="dups", budget_ms=120000))
+    return out
+
+
+def c17_dup_ranks(seed, n=10000, ranks=(0, 1, 2047, 2048, 4094, 4095, 4096, 8190, 8191, 8192, 9999), thin=False):
+    """a key occurring exactly twice whose signature has a chosen rank in the sorted shard of the first attempt
+    (`dup_rank`: the executor picks the key; powers of two are where a parallel scan is cut into blocks)"""
+    r = random.Random(seed)
+    out = []
+    combos = [("shards", 2, "func", "bfv", "usize"), ("shards", 2, "filter", "box", "u8"),
+              ("noshards", 1, "func", "bfv", "usize")]
+    for k, rank in enumerate(ranks):
+        for combo in (combos[k % 3:k % 3 + 1] if thin else combos):
+            for offline in ((False,) if thin else (False, True)):
+                b = build(n, combo, check_dups=True, offline=offline, seed=r.choice([0, 1, 3]),
+                          v=vals(a=0, c=7, m=8))          # equal values: the redundant equation is solvable
+                b["dup_rank"] = rank
+                out.append(episode([b, {"op": "len"}], kt="usize", kf=RANGE0, src="dups"))
+    return out
+
+
+def c17_line_faults(seed, nmax=9, thin=False):
+    """the keys come from sux's own LineLender over a reader that fails at a chosen line of a chosen pass with a
+    chosen io::ErrorKind (UnexpectedEof = a truncated file, InvalidData, ...), or whose seek fails at a chosen
+    rewind: the error must come back from the build, in the first pass and in retry passes (forced by a duplicate)"""
+    r = random.Random(seed)
+    out = []
+    kinds = ["eof", "data", "other", "denied", "broken", "timeout"]
+    combos = [("shards", 2, "func", "bfv", "usize"), ("shards", 2, "filter", "box", "u8")]
+    for n in ([3, 8] if thin else range(2, nmax + 1)):
+        for combo in combos:
+            subst = [[n - 1, r.randrange(n - 1)]]
+            for p in range(0, 4):
+                for i in (sorted({0, n // 2, n - 1, n}) if thin else range(0, n + 1)):
+                    ek = kinds[(p + i + n) % len(kinds)] if not thin else ("eof" if (p + i) % 2 == 0 else r.choice(kinds))
+                    f = read_fault("key", p, i)
+                    f["ekind"] = ek
+                    b = build(n, combo, subst=subst, check_dups=True, faults=[f])
+                    b["ksrc"] = "lines"
+                    out.append(episode([b, {"op": "len"}], kt="str", kf=keyfn(r, "str"), src="faults"))
+            for k in range(1, 4):
+                b = build(n, combo, subst=subst, check_dups=True, faults=[rewind_fault("key", k)])
+                b["ksrc"] = "lines"
+                out.append(episode([b, {"op": "len"}], kt="str", kf=keyfn(r, "str"), src="faults"))
+        # no fault, no duplicate: the same source must build, and every key must be found
+        b = build(n, combos[0], check_dups=True)
+        b["ksrc"] = "lines"
+        out.append(episode([b, {"op": "len"}, {"op": "get", "from": 0, "count": n + 1, "wide": False}], kt="str",
+                           kf=keyfn(r, "str"), src="faults"))
+    # a long text: failure late in the first pass and in a retry pass
+    for (n, p, i, ek) in [(20000, 0, 19999, "eof"), (20000, 1, 10000, "eof"), (20000, 0, 20000, "data")]:
+        f = read_fault("key", p, i)
+        f["ekind"] = ek
+        b = build(n, combos[0], subst=[[n - 1, 7]] if p > 0 else [], check_dups=p > 0, faults=[f])
+        b["ksrc"] = "lines"
+        out.append(episode([b, {"op": "len"}], kt="str", kf=keyfn(r, "str"), src="faults", budget_ms=60000))
+    return out
